@@ -48,8 +48,10 @@ static std::string monitored(const std::string &file, const std::string &input, 
       else if (ac.kind == 2) {
         if (!(stored[ac.addr] & 2)) { stored[ac.addr] |= 2; touched.push_back(ac.addr); }
         if (fetched[ac.addr]) { kind = "store-hits-code"; return "store to word " + std::to_string(ac.addr) + " from which instructions were fetched (pc " + std::to_string(m.pc) + ")"; }
+        if (m.mem[1] < imageWords + 64 && phase == 2) { kind = "stack-budget-exceeded"; return "stack pointer reached the image"; }
         bool dataWord = ac.addr >= 1 && ac.addr < startByte / 4;
         if (!dataWord && ac.addr < imageWords) { kind = "store-into-image"; return "store to image word " + std::to_string(ac.addr) + " outside the data words [1," + std::to_string(startByte / 4) + ")"; }
+        if (ac.addr == 1 && m.mem[1] < imageWords + 64) { kind = "stack-budget-exceeded"; return "stack pointer reached the image: the program needs more stack than the machine has (outside the property's domain)"; }
         if (ac.addr == 1 && m.mem[1] > sp0) { kind = "stack-pointer-above-start"; return "stack pointer set to " + std::to_string(m.mem[1]) + " above its load-time value " + std::to_string(sp0); }
       }
     }
@@ -73,6 +75,7 @@ static void checkProgram(xrun::Runner &R, const std::string &src, const std::str
     std::string w = monitored(file, c.input, c.oc.steps * 80 + 50000, steps, kind, st, &c.oc);
     st.add("executions"); st.add("monitored_steps", steps);
     if (verbose) printf("input %s: %llu steps: %s\n", hexs(c.input).c_str(), (unsigned long long)steps, w.empty() ? "all accesses inside their regions, stack balanced" : w.c_str());
+    if (kind == "stack-budget-exceeded") { st.add("dropped_stack_budget_exceeded"); continue; }
     if (!w.empty()) { st.violation(kind + ":" + family.substr(0, family.find(':', 3) == std::string::npos ? family.size() : family.find(':', 3)), order, Obj().kv("family", family).kv("source", src).kv("input_hex", hexs(c.input)).kv("what", w).str()); break; }
     st.maxv("call_depth", c.oc.maxDepth);
   }
